@@ -8,7 +8,7 @@
 set -uo pipefail
 ID="$1"; NAME="$2"; TIER="${3:-quick}"; shift 3 2>/dev/null || shift $#
 CHECKS="${*:-$ID}"
-S=/tmp/seed-$ID-scratch
+S=${SEED_DIR:-/tmp/seed-$ID-scratch}
 [ -f "$S/patch.diff" ] || { echo "no $S/patch.diff"; exit 2; }
 export GOFLAGS=-mod=mod GOPROXY=off GOSUMDB=off GOTOOLCHAIN=local
 W=$(mktemp -d /tmp/seedv-XXXXXX)
@@ -18,7 +18,7 @@ trap cleanup EXIT
 echo "== demo WITHOUT the change =="
 run_demo() {
   if [ -f "$S/demo.sh" ]; then
-    (cd "$W" && sed "s#/tmp/seed-$ID-scratch#$W.scratch#g; s#/tmp/seed-$ID#$W#g" "$S/demo.sh" > "$W.demo.sh" && mkdir -p "$W.scratch" && bash "$W.demo.sh" >"$W.demo.log" 2>&1); rc=$?
+    (cd "$W" && sed "s#$S#$W.scratch#g; s#${S%-scratch}#$W#g" "$S/demo.sh" > "$W.demo.sh" && mkdir -p "$W.scratch" && bash "$W.demo.sh" >"$W.demo.log" 2>&1); rc=$?
   else
     t=$(ls "$S"/*_test.go 2>/dev/null | head -1)
     [ -n "$t" ] || { echo "no demo found"; return 99; }
